@@ -112,6 +112,38 @@ def h_discrete(cx, sp, sp2, expect_equal=False):
     cx.check('ne', (A != B) == (not r))
 
 
+def h_cross_class(cx, kind):
+    """a non-rational shape and a rational one whose stored arrays are IDENTICAL (the last coordinate is read as the weight)"""
+    B, N = geo.M('BSpline'), geo.M('NURBS')
+    if kind == 'curve':
+        P = cx.points('P', 4, 3)
+        for p in P:
+            cx.assume(p[2] > 0, check=False)
+        a, b = B.Curve(normalize_kv=False), N.Curve(normalize_kv=False)
+        for o in (a, b):
+            o.degree = 2
+        a.ctrlpts = [list(p) for p in P]
+        b.ctrlptsw = [list(p) for p in P]
+        for o in (a, b):
+            o.knotvector = [0, 0, 0, F(1, 2), 1, 1, 1]
+    else:
+        P = cx.points('P', 6, 4)
+        for p in P:
+            cx.assume(p[3] > 0, check=False)
+        a, b = B.Surface(normalize_kv=False), N.Surface(normalize_kv=False)
+        for o in (a, b):
+            o.degree_u, o.degree_v = 1, 2
+        a.set_ctrlpts([list(p) for p in P], 2, 3)
+        b.set_ctrlpts([list(p) for p in P], 2, 3)
+        for o in (a, b):
+            o.knotvector_u = [0, 0, 1, 1]
+            o.knotvector_v = [0, 0, 0, 1, 1, 1]
+    cx.check('different_rationality_unequal', (a == b) is False, 'a == b is %s' % (a == b))
+    cx.check('symmetric', (b == a) is False)
+    cx.check('ne', (a != b) is True)
+    cx.check('each_equals_itself', (a == a) is True and (b == b) is True)
+
+
 def instances(tier):
     out = []
     quick = tier == 'quick'
@@ -152,4 +184,6 @@ def instances(tier):
     out.append(inst('discrete size surface swapped', h_discrete, sp=spec('surface', (1, 1), ((1,), ())), sp2=spec('surface', (1, 1), ((), (1,)))))  # 3x2 vs 2x3
     out.append(inst('discrete dimension curve', h_discrete, sp=spec('curve', (2,), ((1,),), dim=2), sp2=spec('curve', (2,), ((1,),), dim=3)))
     out.append(inst('discrete same surface', h_discrete, sp=s12, sp2=s12, expect_equal=True))
+    out.append(inst('cross-class identical arrays curve', h_cross_class, kind='curve'))
+    out.append(inst('cross-class identical arrays surface', h_cross_class, kind='surface'))
     return out
